@@ -50,6 +50,7 @@ func runFilterConc(cfg Cfg) {
 		var zeroEpoch atomic.Int64
 		var stop atomic.Bool
 		var probeCnt [3]atomic.Int64
+		var selfProbes atomic.Int64
 		var wgW, wgR sync.WaitGroup
 		type wop struct {
 			add  bool
@@ -65,6 +66,7 @@ func runFilterConc(cfg Cfg) {
 			go func(w int) {
 				defer wgW.Done()
 				block := uint32(10+w) << 24
+				own := prefixSet{} // ranges covering the hot address that this writer currently has in the filter
 				var mine []wop
 				for i := 0; i < perWriter; i++ {
 					if w == 0 && toggle && i%25 == 7 {
@@ -83,6 +85,37 @@ func runFilterConc(cfg Cfg) {
 						logs[w] = append(logs[w], wop{false, 0, 0})
 						zeroState.Store(zeroAbsent)
 						zeroEpoch.Add(1)
+						continue
+					}
+					if i%3 == 1 {
+						// hot address of this writer's block: toggle a range covering it and check, as the only
+						// goroutine that ever changes ranges inside this block, that the own update is visible
+						hot := block | 0x010203
+						ones := 24 + wr.Intn(9)
+						k := pfx{hot & maskN(ones), ones}
+						if own[k] {
+							f.Remove(&net.IPNet{IP: ip4(hot), Mask: net.CIDRMask(ones, 32)})
+							delete(own, k)
+							logs[w] = append(logs[w], wop{false, hot, ones})
+						} else {
+							f.Add(&net.IPNet{IP: ip4(hot), Mask: net.CIDRMask(ones, 32)})
+							own[k] = true
+							logs[w] = append(logs[w], wop{true, hot, ones})
+						}
+						want := own.mem(hot)
+						for rep := 0; rep < 2; rep++ {
+							e1, z1 := zeroEpoch.Load(), zeroState.Load()
+							got := f.Contains(ip4(hot))
+							z2, e2 := zeroState.Load(), zeroEpoch.Load()
+							zeroAbsentThroughout := e1 == e2 && z1 == zeroAbsent && z2 == zeroAbsent
+							selfProbes.Add(1)
+							if want && !got {
+								s.Violate("own-update-not-visible", fmt.Sprintf("writer %d: Contains(%v) = false right after its own Add returned (the range is present for the whole call)", w, ip4(hot)), map[string]any{"ip": ip4(hot).String(), "run": run, "writer": w})
+							}
+							if !want && got && zeroAbsentThroughout {
+								s.Violate("own-update-not-visible", fmt.Sprintf("writer %d: Contains(%v) = true right after its own Remove returned (no range covering it exists during the call)", w, ip4(hot)), map[string]any{"ip": ip4(hot).String(), "run": run, "writer": w})
+							}
+						}
 						continue
 					}
 					if len(mine) > 0 && wr.Chance(30) {
@@ -118,6 +151,9 @@ func runFilterConc(cfg Cfg) {
 						a = uint32(100)<<24 | uint32(rr.U64())&0x00ffffff // block 100/8: never touched
 					default:
 						a = uint32(10+rr.Intn(W))<<24 | uint32(rr.U64())&0x00ffffff
+						if rr.Chance(60) {
+							a = uint32(10+rr.Intn(W))<<24 | 0x010203 // a writer's hot address
+						}
 					}
 					var ip net.IP = ip4(a)
 					if rr.Chance(30) {
@@ -209,6 +245,8 @@ func runFilterConc(cfg Cfg) {
 		s.Dist["reader-probes.always-present"] += int(probeCnt[0].Load())
 		s.Dist["reader-probes.never-present"] += int(probeCnt[1].Load())
 		s.Dist["reader-probes.churned"] += int(probeCnt[2].Load())
+		s.Dist["writer-self-probes"] += int(selfProbes.Load())
+		s.Evaluations += int(selfProbes.Load())
 		s.Count(fmt.Sprintf("writer-ops=%d", nOps))
 	}
 	s.Traces = runs
